@@ -19,4 +19,5 @@ for d in seeded/$PAT; do
   done
   (cd /repo && git checkout -- .)
 done
+git -C /verif checkout -- evidence 2>/dev/null   # evidence written under a seed is not evidence about the tree
 mv $OUT.tmp $OUT
